@@ -2,6 +2,7 @@ SPECIFICATION GSpec
 CONSTANTS
   Kinds = {"d2", "aad", "ar", "dc", "adx"}
   MaxLen = 2
+  Hooks = {"none"}
   FaultModes = {"ew"}
   Depth = 14
   MaxStarts = 2
